@@ -480,9 +480,25 @@ def run_extractor(root, log):
         out = subprocess.run(["python3", p], stdout=subprocess.PIPE, stderr=subprocess.STDOUT, text=True, timeout=120)
         log.write(out.stdout)
         last = out.stdout.strip().splitlines()[-1] if out.stdout.strip() else "{}"
-        return json.loads(last)
+        note = json.loads(last)
     except Exception as e:  # noqa: BLE001
-        return {"applied": False, "note": f"extractor failed to run: {e}"}
+        note = {"applied": False, "note": f"extractor failed to run: {e}"}
+    note["translator"] = run_translator(root, log)
+    return note
+
+
+def run_translator(root, log):
+    """Rust -> Lean translator (tools/rust2lean.py): regenerates Stevia/Generated/*.lean from /repo's sources."""
+    p = os.path.join(root, "tools", "rust2lean.py")
+    if not os.path.exists(p):
+        return []
+    try:
+        out = subprocess.run(["python3", p], stdout=subprocess.PIPE, stderr=subprocess.STDOUT, text=True, timeout=120)
+        log.write(out.stdout)
+        last = out.stdout.strip().splitlines()[-1] if out.stdout.strip() else "{}"
+        return json.loads(last).get("translator", [])
+    except Exception as e:  # noqa: BLE001
+        return [{"source": "?", "untranslatable": {"<translator>": f"failed to run: {e}"}, "translated": [], "missing": []}]
 
 
 MIRI_SCOPES = [
